@@ -56,6 +56,7 @@ type Query {
   named: [Named!]
   one(in: OneOfInput!): String
   time(t: Time, blobs: [Blob]): Time
+  calc: Calc
   guarded(x: Int @onArgDef(min: 1, max: 3) @multi): String @onFieldDef @multi(a: [3])
   "field with every kind of default value"
   defaults(
@@ -178,6 +179,17 @@ type Comment implements Node {
   replies: [Comment]
 }
 
+"""
+In the autobind layouts every field of Calc is bound to a Go method whose parameter order
+differs from the order of the arguments here (gqlgen matches them by name).
+"""
+type Calc {
+  span(from: Int!, to: Int!): String!
+  label(prefix: String!, width: Int!, suffix: String!): String!
+  scale(factor: Float!, round: Boolean!): String!
+  window(lo: Int, hi: Int = 9): String!
+}
+
 union Thing @onUnion = User | Post | Comment
 
 union Single = Comment
@@ -288,6 +300,15 @@ type Item { x: Int! }
 		// query only, no mutation / subscription, no directives, no inputs
 		"queryonly": {"schema/s.graphqls": `type Query { a: String }
 `},
+		// autobind to methods whose parameters all have the SAME type but another order than the
+		// schema arguments: only running the generated server can tell whether values are swapped
+		"methodorder": {"schema/s.graphqls": `type Query { calc: Calc }
+type Calc {
+  span(from: Int!, to: Int!): String!
+  join(a: String!, b: String!, c: String!): String!
+  window(lo: Int, hi: Int = 9): String!
+}
+`, "hand/models.go": methodOrderModels, "cmd/harness/main.go": handHarness},
 		// the documented inline-config directives (docs/content/config.md, recipes/extra_fields.md)
 		"godirectives": {"schema/s.graphqls": goDirectives + `directive @goExtraField(name: String, type: String!, overrideTags: String, description: String) repeatable on OBJECT | INPUT_OBJECT
 scalar Big @goModel(model: "github.com/99designs/gqlgen/graphql.Int64")
